@@ -89,6 +89,13 @@ def gen(rng, tier):
         feats.append(mf([rng.choice(["chr2", "Chr1"]) if two_seq and rng.random() < 0.5 else "chr1", rng.choice(["src", "alt"]),
                          "CDS" if two_typ and rng.random() < 0.4 else "exon", s, e, ".",
                          "-" if two_str and rng.random() < 0.4 else "+", "."], attrs))
+    if rng.random() < 0.4:
+        # a second gene with children of its own: what children_bp('g') must not count
+        feats.append(mf(["chr1", "src", "gene", 1, 8, ".", "+", "."], [["ID", ["g2"]]]))
+        for j in range(rng.randint(1, 3)):
+            s = rng.randint(1, 8)
+            e = rng.randint(s, 8)
+            feats.append(mf(["chr1", "src", rng.choice(["exon", "CDS"]), s, e, ".", "+", "."], [["ID", ["j%d" % j]], ["Parent", ["g2"]]]))
     ops = []
     merged_all = False
     for _ in range(rng.randint(2, 6)):
@@ -115,7 +122,7 @@ def gen(rng, tier):
                                    "featuretype": rng.choice([["exon", "CDS"], "exon"])}})
             ops.append({"op": "interleave", "merges": ms, "schedule": [rng.randrange(3) for _ in range(rng.randint(2, 16))]})
         elif k == "children_bp":
-            ops.append({"op": "children_bp", "ftype": rng.choice(["exon", "CDS"]), "merge": rng.random() < 0.6})
+            ops.append({"op": "children_bp", "ftype": rng.choice(["exon", "CDS", "exon", ["exon", "CDS"], ["CDS", "exon"]]), "merge": rng.random() < 0.6})
         elif k == "merge_all":
             merged_all = True
             ops.append({"op": "merge_all", "exclude": rng.random() < 0.4, "groups": rng.choice([None, None, [["exon"]], [["exon", "CDS"]], [["exon"], ["CDS"]]]),
@@ -318,7 +325,7 @@ def run(case):
                 if not d["ok"]:
                     break
                 kids = [f for f in d["dump"]["features"] if f["id"] in set(d["dump"]["rel"].get("g", {}).get("c1", []) + d["dump"]["rel"].get("g", {}).get("c2", []))
-                        and f["cols"][2] == op["ftype"]]
+                        and f["cols"][2] in (op["ftype"] if isinstance(op["ftype"], list) else [op["ftype"]])]
                 r = call(node, {"op": "read", "h": "h", "m": "children_bp", "args": ["g"], "kw": {"child_featuretype": op["ftype"], "merge": op["merge"]}})
                 if "g" not in d["dump"]["rel"]:
                     continue
@@ -326,8 +333,8 @@ def run(case):
                     V.append(viol("C16.children_bp", "children_bp raised %s: %s" % (r["exc"], r["msg"]), kind="children_bp_failed"))
                     break
                 if op["merge"]:
-                    if len(set((f["cols"][0], f["cols"][6]) for f in kids)) > 1:
-                        continue  # union across strands/seqids is not what the shipped criteria merge
+                    if len(set((f["cols"][0], f["cols"][6], f["cols"][2]) for f in kids)) > 1:
+                        continue  # union across strands/seqids/types is not what the shipped criteria merge
                     cov = set()
                     for f in kids:
                         cov.update(range(f["cols"][3], f["cols"][4] + 1))
